@@ -298,7 +298,7 @@ def cli_family(run, rules, modes, rule_text, flagged=None, full_model=False):
     for mode in modes:
         if mode == "long":
             # random walks through the command model (TLC simulation mode): histories of 12 commands
-            n = 16 if run.tier == "quick" else 2000
+            n = 16 if run.tier == "quick" else 300
             cases, r = run.mc("MC_Cli", {"KV_MODE": mode}, out_name="cases-%s.ndjson" % mode, workers=1, cfg="MC_CliLite",
                               simulate="num=%d" % n, extra=["-depth", "13", "-seed", str(run.seed)])
         else:
@@ -364,7 +364,9 @@ def c17(run):
     return cli_family(run, "C17,C05.Atomic,C05.Valid", ["clock"], flagged=pre, rule_text="`total --now` / `json --now` on open ranges dated "
         "today / yesterday / older / tomorrow at several clock readings; and " "all 1440 minutes of the day x roundings {none,5,10,12,15,20,30,60} x date "
         "selection {default, --today, --yesterday, --tomorrow} x start/stop/switch x six layouts of open ranges around today x five kinds "
-        "of days (ordinary, leap day, 1 March, 31 December, 1 January); quick tier: every minute with a rotating rounding/layout/day")
+        "of days (ordinary, leap day, 1 March, 31 December, 1 January) plus two days next to daylight-saving switches in Europe/Berlin, every third "
+        "minute with the 12-hour convention configured; quick tier: every minute with a rotating rounding/layout/day; thorough tier: every minute x every "
+        "rounding x every command with three rotating layouts on a rotating kind of day")
 
 
 def eval_family(run, rules, modes, rule_text, chunk=1500, flagged=None, finish=True):
